@@ -76,7 +76,7 @@ def check(tier, seed):
             add(f"sign {s} {mode} bytes:{kb.hex()} {hx(msg)} {hx(b'c')} ok:{'33' * 32}", 'accepted dishonest sk: sign', t < 1)
         # --- one out-of-range s1/s2 field at each structural position: whatever deserialisation does with it, nothing may panic
         for pi in sorted({0, l - 1, l, l + k - 1}):
-            for ci in (0, 255):
+            for ci in (0, 1, 2, 3, 4, 5, 6, 7, 253, 255):      # every alignment of a field against the byte boundaries
                 for v in (2 * eta + 1, (1 << bl) - 1):
                     kb = set_field(sk, bl, pi * 256 + ci, v)
                     add(f"sk_rt {s} bytes:{kb.hex()}", 'out-of-range s1/s2 field: deserialise (+ serialise if accepted)', False)
